@@ -232,9 +232,3 @@ Proof.
   rewrite IH1, IH2. split; reflexivity.
 Qed.
 
-Theorem escaped_text_is_inert s :
-  esc_text_ok s (escape_text s) = true.
-Proof.
-  unfold esc_text_ok, escape_text. destruct (esc_text_spec s false) as [H1 H2].
-  rewrite H1, H2. rewrite (proj2 (list_eqb_spec N.eqb N.eqb_eq _ _) eq_refl). reflexivity.
-Qed.
